@@ -36,21 +36,21 @@ type xloop struct {
 }
 
 type xg struct {
-	t       *rapid.T
-	lines   []string
-	ind     int
-	scopes  [][]xv
-	n       int
-	loops   []xloop
-	methods []xm
-	budget  int
-	hasObj  bool
-	inDef   bool
-	retInt  bool
+	t              *rapid.T
+	lines          []string
+	ind            int
+	scopes         [][]xv
+	n              int
+	loops          []xloop
+	methods        []xm
+	budget         int
+	hasObj         bool
+	inDef          bool
+	retInt         bool
 	noClosureCalls bool // known finding native-closure-call-arity
 	noNumContinue  bool // known finding native-continue-skips-increment
 	noIfaceCalls   bool // known finding native-interface-method-call
-	feats   map[string]bool
+	feats          map[string]bool
 }
 
 func (g *xg) pick(n int, l string) int    { return vgen.Pick(g.t, n, l) }
